@@ -33,10 +33,16 @@ ENGINES = [
 PENDING_REASON = "check under construction in this session (spec and driver not yet committed); see DESIGN.md section 5"
 
 
+# fragments written by module builders are only claimed once reviewed and passing on the unchanged tree
+APPROVED = {"C01", "C02", "C03", "C05", "C10", "C14"}
+
+
 def load_fragments():
     import glob
     for f in sorted(glob.glob(os.path.join(HERE, "manifest.d", "C*.json"))):
         pid = os.path.basename(f)[:-5]
+        if pid not in APPROVED:
+            continue
         CHECKS[pid] = json.load(open(f))
         ENGINES.append(dict(name=CHECKS[pid]["engine"], path=CHECKS[pid].get("path", "spec/"),
                             serves_properties=[pid], kind_free_text="TLA+ spec + TLC + conformance driver"))
